@@ -243,6 +243,10 @@ def run_history(spec, variants, ops, root, multichain=False, data=None):
             chains.append(chain); all_chains.append(chain); chain_variant[id(chain)] = v
             if chain is not None:
                 r['wiring'] = wiring_check(spec, v, b, chain)
+                try:
+                    r['ktasks'] = ktasks_of_chain(chain)
+                except (TypeError, KeyError):
+                    r['ktasks'] = None
         elif op['op'] == 'restart':
             chains = [None] * len(chains)
         else:
@@ -329,6 +333,34 @@ def unexpected_oracle(ctx, case, hist):
                      {'op': r['op'], 'wiring': r['wiring']})
         if r.get('unexpected') and not r['op'].get('failing'):
             ctx.fail('operation raised an unexpected exception', case, {'op': r['op'], 'exception': r['unexpected']})
+
+
+def ktasks_of_chain(chain):
+    """what `C01.WFChain` speaks about, extracted from a real chain: tasks in creation order (inputs first) with namespace,
+    declared parameters + received values, input tasks (name relative to the namespace, full name) and key"""
+    from taskchain.task import Task
+    order, seen = [], set()
+
+    def visit(name, t):
+        if name in seen:
+            return
+        seen.add(name)
+        for iname, it in t.input_tasks.items():
+            if isinstance(it, Task):
+                visit(iname, it)
+        order.append((name, t))
+    for name, t in chain.tasks.items():
+        visit(name, t)
+    out = []
+    for name, t in order:
+        ns = t.get_config().namespace
+        ins = []
+        for iname, it in t.input_tasks.items():
+            if isinstance(it, Task):
+                rel = iname[len(ns) + 2:] if ns else iname
+                ins.append([rel, iname])
+        out.append({'full': name, 'ns': ns, 'params': pl.model_params(t), 'inputs': ins, 'key': t.name_for_persistence})
+    return out
 
 
 def wiring_check(spec, variant, b, chain):
@@ -524,6 +556,19 @@ def run_batch(ctx, n, allow, length=(8, 30), label='history', kinds=None, oracle
         maps = {'objs': topo_objects(hist['chains']), 'keep': seg['keep'], 'io': io}
         reqs.append(req); metas.append((spec, variants, ops, hist, maps))
     outs = ctx.model.many(reqs)
+    # ---- the hypothesis of the link theorem (C01.same_key_same_computation), evaluated on every chain the real code built
+    lreqs, lmeta = [], []
+    for (spec, variants, ops, hist, maps) in metas:
+        for r in hist['rec']:
+            if r.get('ktasks'):
+                lreqs.append({'m': 'link', 'tasks': r['ktasks'], 'np': sorted(pl.nonprintable(r['ktasks']))}); lmeta.append((spec, r['op']))
+    for (spec, op), lo in zip(lmeta, ctx.model.many(lreqs)):
+        if lo.get('wf'):
+            ctx.count('chains:WFChain-holds')
+        elif any(not b_['key_ok'] or not b_['inputs_found'] for b_ in lo.get('bad', [])):
+            ctx.diverge('link:key-function', {'module': spec['module'], 'op': op, 'spec': spec}, 'keys of the real chain', lo.get('bad'))
+        else:
+            ctx.count('chains:outside-WFChain(values)')
     for (spec, variants, ops, hist, maps), mo in zip(metas, outs):
         case = {'module': spec['module'], 'ops': ops, 'variants': [{'ns': v['ns'], 'file': v['file']} for v in variants],
                 'n_objects': len(maps['objs'])}
